@@ -200,6 +200,7 @@ func runSPH(t *testing.T, ksc KScenario, res *KResult) {
 	migrated := false
 	curMTU := protocol.ByteCount(1200)
 	var peerECT0, peerCE uint64 // ECN counters of the model peer (application space)
+	lastAckElicSpace := -1
 	sendOrd := 0                // global send ordinal
 	lastCutOrd := -1            // ordinal of the newest packet that had been sent when the window was last reduced
 
@@ -350,6 +351,9 @@ func runSPH(t *testing.T, ksc KScenario, res *KResult) {
 		bytesSent += size
 		sendOrd++
 		p.ord = sendOrd
+		if p.ackElic {
+			lastAckElicSpace = sp // what the sender's "largest sent packet number" now refers to
+		}
 		sent[sp] = append(sent[sp], p)
 		p.delivered = !netLoss
 		if p.delivered && ecn == protocol.ECT0 {
@@ -456,10 +460,15 @@ func runSPH(t *testing.T, ksc KScenario, res *KResult) {
 			}
 			// (a reduction that happened while other number spaces existed is not a usable reference:
 			// the sender's guard compares packet numbers, which are only comparable within one space)
-			if sp == 2 && !alive[0] && !alive[1] {
+			// (and the sender records "largest sent" from the last ack-eliciting packet of ANY space: a reference taken
+			// while that was a packet of another space is not usable either)
+			if sp == 2 && !alive[0] && !alive[1] && lastAckElicSpace == 2 {
 				lastCutOrd = sendOrd
 			} else {
 				lastCutOrd = -1
+				if sp == 2 && !alive[0] && !alive[1] {
+					res.Probe("cut-reference-taken-from-another-number-space")
+				}
 			}
 		}
 	}
